@@ -315,7 +315,7 @@ def handle : Protocol.Handler := fun j => do
     let m ← decModel (← field j "model")
     match shapeOf k m with
     | .ok s => return Json.mkObj [("decl", encDecl (declOf k m)), ("shape", encShape s)]
-    | .error u => return encUnsupported u
+    | .error u => return (encUnsupported u).setObjVal! "decl" (encDecl (declOf k m))
   | "load_model" =>
     let k ← decKind (← fieldStr j "kind")
     let m ← decModel (← field j "model")
@@ -332,7 +332,7 @@ def handle : Protocol.Handler := fun j => do
       | .err e => return Json.mkObj [("r", "err"), ("not_mapping", Json.bool e.notMapping),
           ("missing", listJ ((sortStrings e.missing).map Json.str)), ("bad", listJ ((sortStrings e.bad).map Json.str))]
       | .ok args =>
-        let obj := objectOf k "null" m args
+        let obj := objectOf k litS callS "null" m args
         return Json.mkObj [("r", "ok"), ("args", pairsJ args),
           ("object", listJ (obj.map fun (n, v) => listJ [Json.str n, optStrJ v]))]
   | "dump_model" =>
